@@ -123,3 +123,47 @@ func c10Response() {
 }
 
 func VerifC10Response() { c10Response() }
+
+// bytes appended after the authenticator are not authenticated: they must not influence what is
+// accepted (in particular not the unique identifier the response is matched with)
+func VerifC10ResponseTrailing() {
+	s2c := v.Bytes("s2c", 32)
+	uid := v.Bytes("uid", 32)
+	resp := NewResponsePacket([][]byte{v.Bytes("cookie", 8)}, s2c, uid)
+	buf := make([]byte, 48)
+	copy(buf, v.Bytes("ntphdr", 48))
+	EncodePacket(&buf, &resp)
+	tail := v.Bytes("tail", 36)
+	adv := make([]byte, 0, len(buf)+36)
+	adv = append(adv, buf...)
+	adv = append(adv, tail...)
+	reqID := v.Bytes("reqid", 32)
+	var f ntske.Fetcher
+	var p2 Packet
+	if DecodePacket(&p2, adv) == nil && ProcessResponse(adv, s2c, &f, &p2, reqID) == nil {
+		v.Assert(c10eq(reqID, uid), "C10.sound.unauthenticated-trailing-fields-do-not-change-the-id")
+	}
+	v.Reach("C10.responsetrailing")
+}
+
+func VerifC10RequestTrailing() {
+	key := v.Bytes("key", 32)
+	uid := v.Bytes("uid", 32)
+	cookie := v.Bytes("cookie", 8)
+	var pkt Packet
+	pkt.UniqueID.ID = uid
+	pkt.Cookies = append(pkt.Cookies, Cookie{Cookie: cookie})
+	pkt.Auth.Key = key
+	buf := make([]byte, 48)
+	EncodePacket(&buf, &pkt)
+	tail := v.Bytes("tail", 36)
+	adv := make([]byte, 0, len(buf)+36)
+	adv = append(adv, buf...)
+	adv = append(adv, tail...)
+	var p2 Packet
+	if DecodePacket(&p2, adv) == nil && ProcessRequest(adv, key, &p2) == nil {
+		v.Assert(c10eq(p2.UniqueID.ID, uid), "C10.sound.request-id-is-the-authenticated-one")
+		v.Assert(len(p2.Cookies) == 1 && c10eq(p2.Cookies[0].Cookie, cookie), "C10.sound.request-cookies-are-the-authenticated-ones")
+	}
+	v.Reach("C10.requesttrailing")
+}
